@@ -1007,9 +1007,15 @@ pub fn check_replies(out: &ConnOutcome, plan: &Plan, read_upto: usize, exact: bo
         vcheck!(w.decoded_at_read[ri] >= e.trigger, &format!("{oracle_prefix}_reply_premature"), "reply #{k} completed when only {} input bytes were read; its query ends at {}", w.decoded_at_read[ri], e.trigger);
         k += 1;
     }
-    if exact {
-        let owed = exp.iter().filter(|e| e.trigger <= read_upto).count();
-        vcheck!(k == owed, &format!("{oracle_prefix}_reply_missing"), "{k} replies in the log but {owed} queries were read completely (read {} bytes)", read_upto);
+    // A keep-alive connection that ended because the client closed (EOF seen while waiting for the next
+    // request) has parsed every complete record it read: each of them is owed its reply.
+    let ended_on_eof = out.task_done && w.eof_reported && w.write_failed_at.is_none() && w.rfault == RFault::None && w.wfault == WFault::None
+        && w.handler_log.last().map_or(true, |h| h.finished && h.status.as_deref().map_or(false, |s| !s.starts_with("err:") || s == "err:ConnectionAborted"))
+        && plan.reqs.get(w.handler_log.len().wrapping_sub(1)).map_or(w.handler_log.is_empty(), |r| r.flags & 1 == 1)
+        && w.shutdown_requested_at_step.is_none();
+    if exact || ended_on_eof {
+        let owed = exp.iter().filter(|e| e.rec_end <= read_upto).count();
+        vcheck!(k >= owed, &format!("{oracle_prefix}_reply_missing"), "{k} replies in the log but {owed} queries were read completely (read {} bytes) by a connection that ended on client EOF", read_upto);
     }
     Ok(())
 }
